@@ -52,6 +52,19 @@ pub fn dispatch(op: &str, a: &[Val]) -> Option<Val> {
             let l: Option<Vec<TimeDelta>> = a.get(0)?.tup()?.iter().map(dec_td).collect();
             Some(enc_td(l?.iter().sum()))
         })(),
+        // compound assignment, Sum over owned values, the range constants
+        "td.opaddasg" => (|| { let mut d = dec_td(a.get(0)?)?; d += dec_td(a.get(1)?)?; Some(enc_td(d)) })(),
+        "td.opsubasg" => (|| { let mut d = dec_td(a.get(0)?)?; d -= dec_td(a.get(1)?)?; Some(enc_td(d)) })(),
+        "td.sumv" => (|| {
+            let l: Option<Vec<TimeDelta>> = a.get(0)?.tup()?.iter().map(dec_td).collect();
+            Some(enc_td(l?.into_iter().sum()))
+        })(),
+        "td.consts" => (|| {
+            if !a.is_empty() { return None; }
+            #[allow(deprecated)]
+            let (lo, hi) = (TimeDelta::min_value(), TimeDelta::max_value());
+            Some(vtup(vec![enc_td(TimeDelta::MIN), enc_td(TimeDelta::MAX), enc_td(TimeDelta::zero()), enc_td(lo), enc_td(hi)]))
+        })(),
         _ => return None,
     };
     Some(r.unwrap_or_else(bad))
